@@ -23,6 +23,9 @@ type c06Case struct {
 	// Reuse: the caller keeps the slices the getters returned and appends to them later (after further calls on the
 	// Msg) — ordinary Go usage that must not reach into the message
 	Reuse bool `json:"reuse,omitempty"`
+	// Base: the message already has a sender and a Cc recipient before the sequence starts, so that every sequence ends
+	// in a delivery
+	Base bool `json:"base,omitempty"`
 }
 
 type na struct{ Name, Addr string }
@@ -92,6 +95,7 @@ func c06Ops() []c06Op {
 	ops = append(ops,
 		c06Op{"(render)", func(m *mail.Msg) error { var b bytes.Buffer; _, err := m.WriteTo(&b); return err }, func(ref map[string][]na) bool { return true }},
 		c06Op{"(NewReader)", func(m *mail.Msg) error { _ = m.NewReader(); return nil }, func(ref map[string][]na) bool { return true }},
+		c06Op{"(GetRecipients, GetSender)", func(m *mail.Msg) error { _, _ = m.GetRecipients(); _, _ = m.GetSender(true); _, _ = m.GetSender(false); return nil }, func(ref map[string][]na) bool { return true }},
 	)
 	type hdr struct {
 		name    string
@@ -223,6 +227,12 @@ func c06Exec(r *vf.Run, k c06Case) []finding {
 	ref := map[string][]na{}
 	getters := map[string]mail.AddrHeader{"From": mail.HeaderFrom, "To": mail.HeaderTo, "Cc": mail.HeaderCc, "Bcc": mail.HeaderBcc, "Reply-To": mail.HeaderReplyTo, "EnvelopeFrom": mail.HeaderEnvelopeFrom}
 	var names []string
+	if k.Base {
+		_ = m.From("base-sender@x.example")
+		_ = m.Cc("base-cc@x.example")
+		ref["From"], ref["Cc"] = []na{{"", "base-sender@x.example"}}, []na{{"", "base-cc@x.example"}}
+		names = append(names, "(message with sender and a Cc recipient)")
+	}
 	var kept [][]*netmail.Address // getter results the caller holds on to
 	for _, oi := range k.Ops {
 		if k.Reuse {
@@ -401,7 +411,7 @@ func init() {
 		ID: "C06", Title: "recipients are exactly To+Cc+Bcc, and Bcc stays hidden",
 		Run: func(r *vf.Run) {
 			nops := len(c06Ops())
-			r.SetRule(fmt.Sprintf("ALL sequences of length 0..L over %d concrete address-setting operations (From/FromFormat/EnvelopeFrom/ReplyTo/ReplyToFormat and, for each of To/Cc/Bcc: set(list), set(list with an invalid entry), Add (non-ASCII name / duplicate / invalid), AddFormat (name with comma; name with runs of blanks), IgnoreInvalid(valid, invalid, own), FromString) followed by render and send; a boring reference (header → ordered list of (name, address)) is updated by the documented semantics and resynchronised from the getters after errors and *IgnoreInvalid; oracle: envelope sender/recipients in the reference server's commit, rendered address fields parsed back by the harness' own parser, Bcc-only addresses absent from every rendered byte; every sequence is run a second time with a caller that keeps the slices returned by GetTo/GetCc/GetBcc/GetFrom/GetAddrHeader before each operation and appends to them afterwards (the message must not change); distinct by operation sequence", nops))
+			r.SetRule(fmt.Sprintf("ALL sequences of length 0..L over %d concrete address-setting operations (From/FromFormat/EnvelopeFrom/ReplyTo/ReplyToFormat and, for each of To/Cc/Bcc: set(list), set(list with an invalid entry), Add (non-ASCII name / duplicate / invalid), AddFormat (name with comma; name with runs of blanks), IgnoreInvalid(valid, invalid, own), FromString) (renderings, NewReader and the envelope getters GetRecipients / GetSender may stand anywhere in the sequence) followed by render and send; a boring reference (header → ordered list of (name, address)) is updated by the documented semantics and resynchronised from the getters after errors and *IgnoreInvalid; oracle: envelope sender/recipients in the reference server's commit, rendered address fields parsed back by the harness' own parser, Bcc-only addresses absent from every rendered byte; every sequence is also run on a message that already has a sender and a Cc recipient (so that it ends in a delivery), and a second time with a caller that keeps the slices returned by GetTo/GetCc/GetBcc/GetFrom/GetAddrHeader before each operation and appends to them afterwards (the message must not change); distinct by operation sequence", nops))
 			r.Assume("after a call that returned an error, or an *IgnoreInvalid call, the reference is re-read from the getters (the property is silent about which entries survive)")
 			L := 3
 			if r.Thorough {
@@ -446,6 +456,23 @@ func init() {
 								for _, x := range c06Exec(r, k2) {
 									if x.key == f.key {
 										return f.key + "/caller-reuses-getter-results"
+									}
+								}
+								return ""
+							})
+						}
+					}
+					if l > 0 {
+						// the same sequence on a message that already has a sender and a recipient
+						k3 := c06Case{Ops: ops, Base: true}
+						r.Eval(vf.Hash(fmt.Sprint(ops), "base"), true)
+						r.TraceValidated()
+						for _, f := range c06Exec(r, k3) {
+							f := f
+							r.Violation(f.key+"/on-a-message-with-sender-and-recipient", f.what, k3, func() string {
+								for _, x := range c06Exec(r, k3) {
+									if x.key == f.key {
+										return f.key + "/on-a-message-with-sender-and-recipient"
 									}
 								}
 								return ""
